@@ -316,6 +316,47 @@ def rule_r5(repo, col):
                construct="def __setitem__: every node recorded", function="ResultSet.__setitem__")
 
 
+def rule_r6(repo, col):
+    """findall/3 proves its goal in an auxiliary formula of its own: the object passed as target= to engine.call is constructed in this very call, with keep_order / keep_all /
+    keep_duplicates switched on (the branch order is read off the node indices of that formula)"""
+    fb = repo.func("problog.engine_builtin", "_builtin_findall_base")
+    m = fb.module
+    calls = [c for c in walk_no_nested(fb.node) if isinstance(c, ast.Call) and isinstance(c.func, ast.Attribute) and c.func.attr == "call" and any(k.arg == "target" for k in c.keywords)]
+    if len(calls) != 1:
+        raise AnalysisError("_builtin_findall_base: engine.call(..., target=...) not found")
+    tgt = [k.value for k in calls[0].keywords if k.arg == "target"][0]
+    if isinstance(tgt, ast.Call):
+        defs = [(tgt, tgt)]
+    elif isinstance(tgt, ast.Name):
+        defs = [(st, st.value) for st in walk_no_nested(fb.node) if isinstance(st, ast.Assign) and any(isinstance(t_, ast.Name) and t_.id == tgt.id for t_ in st.targets)]
+        if tgt.id in fb.params:
+            defs.append((fb.node, None))
+    else:
+        raise AnalysisError("_builtin_findall_base: target argument not understood: %s" % norm(tgt))
+    if not defs:
+        raise AnalysisError("_builtin_findall_base: no definition of the auxiliary target found")
+
+    def fresh(v):
+        if not isinstance(v, ast.Call):
+            return False
+        fn = norm(v.func)
+        return fn.endswith(".__class__") or fn in ("LogicFormula", "type(target)") or (fn[:1].isupper() and fn.isidentifier())
+
+    stale = [(st, v) for st, v in defs if not fresh(v)]
+    col.decide("R6", m, stale[0][0] if stale else defs[0][0], not stale, "findall/3 proves its goal in a formula constructed in the same call",
+               "_builtin_findall_base passes to engine.call a target that is not constructed in this call (%s): the branch order of findall/3 is read off the node indices of that "
+               "formula, so nodes left there by an earlier findall keep their old, smaller indices and jump the queue - findall(X, (s(X); n(X)), L) after findall(X, n(X), _) lists "
+               "the n/1 answers first" % ("; ".join(sorted(set(norm(v)[:60] if v is not None else "a parameter" for _, v in stale)))),
+               construct="_builtin_findall_base: auxiliary target not fresh", function="_builtin_findall_base")
+    for st, v in defs:
+        if fresh(v):
+            kws = {k.arg: norm(k.value) for k in v.keywords}
+            missing = [k_ for k_ in ("keep_order", "keep_all", "keep_duplicates") if kws.get(k_) != "True"]
+            col.decide("R6", m, st, not missing, "the auxiliary formula keeps order, all nodes and duplicates",
+                       "the auxiliary formula of findall/3 is created without %s=True: identical or trivially true proofs are then merged or dropped and the order / multiplicity of the "
+                       "answers is lost" % ", ".join(missing), construct="_builtin_findall_base: auxiliary target flags", function="_builtin_findall_base")
+
+
 def run(repo, col):
     col.rule("R5", "the answer buffer records every proof node (duplicates included)")
     col.rule("R1", "ClauseIndex.find returns clause ids in program order (abstract interpretation)")
@@ -326,3 +367,5 @@ def run(repo, col):
     rule_r3(repo, col)
     rule_r4(repo, col, idx)
     rule_r5(repo, col)
+    col.rule("R6", "findall/3 proves its goal in a fresh order-keeping formula")
+    rule_r6(repo, col)
